@@ -256,7 +256,7 @@ func registerServiceFlows() {
 	w := apworld.NewWorld(43)
 	kt := keytab.New()
 	if err := kt.Unmarshal(w.Keytab); err != nil {
-		engine.Fatal("service keytab: %v", err)
+		engine.FailValid("keytab.Unmarshal(service keytab)", err)
 	}
 	pacBytes := hx(testdata.MarshaledPAC_AD_WIN2K_PAC)[0]
 	withPAC := apworld.Base(18)
@@ -317,7 +317,7 @@ func registerServiceFlows() {
 	// HTTP Basic header value for the Kerberos basic authenticator (KDC unreachable: the login fails after parsing)
 	cfg, err := config.NewFromString("[libdefaults]\n default_realm = TEST.GOKRB5\n dns_lookup_kdc = false\n[realms]\n TEST.GOKRB5 = {\n  kdc = nowhere.test.gokrb5:88\n }\n")
 	if err != nil {
-		engine.Fatal("basic authenticator configuration: %v", err)
+		engine.FailValid("config.NewFromString(valid configuration)", err)
 	}
 	register(&entry{name: "service.KRB5BasicAuthenticator.Authenticate(header)", kind: "text", costly: true, budget: 4 << 20,
 		seeds: [][]byte{[]byte("Basic dXNlcjFAVEVTVC5HT0tSQjU6cGFzc3dvcmQ="), []byte("Basic VEVTVFx1c2VyMTpwYXNzd29yZA==")}, run: func(b []byte) {
